@@ -237,24 +237,42 @@ def variantWrittenAs (v : Variant) (dta : DataTypeAttrs) : List (TraitAttrCore Ã
 
 /-- has `render_enum_line` an arm for this combination of a variant-level trait instruction, `#[literal]` and `#[pattern]`? -/
 def enumArmSupported (attr lit pat : Bool) (k : Kind) : Bool :=
+  !k.isIntoExisting &&
   match attr, lit, pat with
   | false, false, false => true
-  | true, false, false | false, true, false => !k.isIntoExisting
+  | true, false, false | false, true, false => true
   | false, false, true => k.isFrom
-  | true, false, true => !k.isFrom && !k.isIntoExisting
+  | true, false, true => !k.isFrom
   | _, _, _ => false
 
 def variantArmMsg (v : Variant) (a : TraitAttr) (k : Kind) : String :=
   "Variant " ++ v.ident ++ ": this combination of a variant-level trait instruction, #[literal(...)] and #[pattern(...)] is not supported for #[" ++
     fallibleKindName k a.fallible ++ "(" ++ a.core.ty.pathStr ++ "...)] trait instruction"
 
+def variantPatMsg (v : Variant) (a : TraitAttr) (k : Kind) : String :=
+  "Variant " ++ v.ident ++ ": the variant-level trait instruction of a #[pattern(...)] variant should have an expression, that is what #[" ++
+    fallibleKindName k a.fallible ++ "(" ++ a.core.ty.pathStr ++ "...)] converts the variant to"
+
+def variantExistingMsg (v : Variant) (a : TraitAttr) (k : Kind) : String :=
+  "Variant " ++ v.ident ++ ": 'into_existing' conversions are not available for enums (#[" ++
+    fallibleKindName k a.fallible ++ "(" ++ a.core.ty.pathStr ++ "...)] trait instruction)"
+
+/-- one (trait instruction, kind) of `validate_variant_arm` -/
+def variantArmStep (v : Variant) (es : Errors) (x : TraitAttr Ã— Kind) : Errors :=
+  let ty := x.1.core.ty
+  if x.1.core.quickReturn.isSome || !variantHasArm v ty x.2 then es else
+  let attr := v.attrs.applicableAttr x.2 x.1.fallible ty
+  -- there is no `match` for an into_existing conversion of an enum (fix 4d98551): every variant with an arm is reported
+  if x.2.isIntoExisting then es.insert (variantExistingMsg v x.1 x.2) else
+  if enumArmSupported attr.isSome (v.attrs.lit ty).isSome (v.attrs.pat ty).isSome x.2 then
+    -- the arm of a `#[pattern(..)]` variant on the Into side is the expression of its instruction (fix 08c970f)
+    if (v.attrs.pat ty).isSome && (match attr with | some a => !a.hasAction | none => false) then es.insert (variantPatMsg v x.1 x.2)
+    else es
+  else es.insert (variantArmMsg v x.1 x.2)
+
 /-- `validate_variant_arm` -/
 def variantArmPass (v : Variant) (dta : DataTypeAttrs) (errors : Errors) : Errors :=
-  (traitAttrsByKind dta).foldl (fun es x =>
-    let ty := x.1.core.ty
-    if x.1.core.quickReturn.isSome || !variantHasArm v ty x.2 then es else
-    if enumArmSupported (v.attrs.applicableAttr x.2 x.1.fallible ty).isSome (v.attrs.lit ty).isSome (v.attrs.pat ty).isSome x.2 then es
-    else es.insert (variantArmMsg v x.1 x.2)) errors
+  (traitAttrsByKind dta).foldl (variantArmStep v) errors
 
 /-- is the nested struct a `#[child]` member is written into given `as {}` in `#[child_parents]`? (fix 43d0b08) -/
 def nestedStructShaped (input : Struct) (ty : TypePath) (field : Field) : Bool :=
